@@ -4,7 +4,7 @@ import common
 
 PROPS = "RotoV.Props.C07"
 MODULES = [
-    "RotoV.Lemmas.TcRules", "RotoV.Lemmas.Unify", "RotoV.Lemmas.Typing", "RotoV.Lemmas.TypingAux", "RotoV.Lemmas.TypingMono",
+    "RotoV.Lemmas.TcRules", "RotoV.Lemmas.Unify", "RotoV.Lemmas.Typing", "RotoV.Lemmas.TypingAux", "RotoV.Lemmas.TypingMono", "RotoV.Lemmas.TypingProg",
     "RotoV.Model.Typing", "RotoV.Model.TcRules", "RotoV.Model.Unify",
 ]
 
